@@ -12,6 +12,7 @@ import (
 	"runtime"
 	"runtime/debug"
 	"strings"
+	"time"
 
 	"github.com/my-cloud/ruthenium/validatornode/application"
 	"github.com/my-cloud/ruthenium/validatornode/domain/ledger"
@@ -404,7 +405,7 @@ func derive(w *world, c *caseSpec) (msg []byte, base *baseMsg, err error) {
 		return nil, nil, err
 	}
 	root := base.v
-	if c.Fault != "" {
+	if c.Fault != "" && c.Fault != "delivery" {
 		res, whole, ok := applyFault(root, c.path(), c.Fault)
 		if !ok {
 			return nil, nil, fmt.Errorf("fault %s does not apply at %s", c.Fault, c.path())
@@ -548,6 +549,46 @@ func runHandler(c *caseSpec, d *driver) *caseResult {
 	case "update-ext", "update-full":
 		ext := c.Schema == "update-ext"
 		hostLen := uint64(len(w.n.AllBlocks()))
+		if strings.HasPrefix(c.Variant, "late") {
+			// the answer — valid, garbage or an error — is delivered after the node's timeout: the round must keep the
+			// ledger, and the late delivery must neither crash the process (this case runs in a child: a panic in the
+			// fetch goroutine kills it, reported as process-died) nor leave a goroutine behind
+			late := &node.Sender{TargetValue: "127.0.0.1:7666", Blocks: func(h uint64) ([]byte, error) {
+				time.Sleep(w.s.Timeout + 120*time.Millisecond)
+				switch c.Variant {
+				case "late-garbage":
+					return []byte("[{\"transactions\":[null"), nil
+				case "late-error":
+					return nil, fmt.Errorf("connection reset")
+				}
+				return msg, nil
+			}}
+			w.n.Senders.Set([]application.Sender{late})
+			p := guarded(func() { w.n.Chain.Update(base.now) })
+			w.n.Senders.Set(nil)
+			time.Sleep(w.s.Timeout + 400*time.Millisecond) // every late answer has been delivered by now
+			after, _ := snap(w.n)
+			r.Impl, r.Model = "kept", "kept"
+			if p != "" {
+				r.Impl = "panic"
+				c.fail(r, "panic", "Update panicked with a late answer: "+p, msg)
+			}
+			if !sameState(before, after) {
+				r.Impl = "changed"
+				c.fail(r, "state-changed-by-late-answer", "an answer delivered after the timeout changed the ledger", msg)
+			}
+			if g := runtime.NumGoroutine(); g > baseG {
+				time.Sleep(300 * time.Millisecond)
+				if g = runtime.NumGoroutine(); g > baseG {
+					c.fail(r, "goroutine-left-by-late-answer", fmt.Sprintf("goroutines %d -> %d after the late answer was delivered", baseG, g), msg)
+				}
+			}
+			if fp, _ := followUps(w); fp != "" {
+				c.fail(r, "followup-panic", "an operation after the late answer panicked: "+fp, msg)
+			}
+			r.Key = c.label() + "|" + r.Impl
+			return r
+		}
 		evil := &node.Sender{TargetValue: "127.0.0.1:7666", Blocks: func(h uint64) ([]byte, error) {
 			if (ext && h == hostLen-1) || (!ext && h == 0) {
 				return msg, nil
